@@ -54,5 +54,33 @@ def main():
     return 2
 
 
+def guarded():
+    """A check that raises instead of deciding has met output of the generator it cannot interpret: the tie between the model
+    and the code is broken at that point.  That is reported like any other broken correspondence - a violation without a
+    failing input, the traceback as the replay - not as a crash of the tool."""
+    try:
+        return main()
+    except (KeyboardInterrupt, SystemExit):
+        raise
+    except BaseException:
+        import json
+        import os
+        import traceback
+        from pathlib import Path
+        pid = sys.argv[1] if len(sys.argv) > 1 else "unknown"
+        tier = next((a for a in sys.argv[2:] if a in ("quick", "thorough")), os.environ.get("VERIF_TIER", "quick"))
+        seed = os.environ.get("VERIF_SEED", "0")
+        root = Path(__file__).resolve().parent.parent
+        rel = Path("replays") / pid / f"{tier}-{seed}-harness-exception.json"
+        (root / rel).parent.mkdir(parents=True, exist_ok=True)
+        (root / rel).write_text(json.dumps({"property": pid, "tier": tier, "seed": seed, "no_failing_input_found": True,
+                                            "broken_correspondence": [{"stage": "harness-exception", "traceback": traceback.format_exc()[-4000:]}],
+                                            "note": "the check could not interpret what the implementation produced; nothing is claimed "
+                                                    "about the property on this tree"}, indent=1))
+        traceback.print_exc()
+        print(f"VIOLATION property={pid} replay={rel} no-failing-input-found", flush=True)
+        return 1
+
+
 if __name__ == "__main__":
-    sys.exit(main())
+    sys.exit(guarded())
